@@ -235,6 +235,58 @@ def w_quick(days: int, s0: int, clock: int, kind: int) -> str:
     return _case(rt.sel(days, 5), s, (s + 1) % 16, (s + 5) % 16, rt.sel(clock, 3), rt.sel(kind, 6))
 
 
+# ---------------------------------------------------------------- a trash-put completing while trash-empty DAYS runs
+def _conc(k, days, kind, tdk):
+    """trash-empty DAYS is preempted after k system calls by a COMPLETE trash-put into the same trash directory, then
+    finishes: the fresh entry is younger than DAYS, so it must be intact afterwards (payload and info), the old
+    entries and the orphan must be gone"""
+    from vf import sched
+    with rt.untraced():
+        td = ['/v/.Trash-1000', '/h/.local/share/Trash'][tdk]
+        base = '/v/w' if tdk == 0 else '/h/w'
+        pv = (lambda p: p[3:]) if tdk == 0 else (lambda p: p)
+        nodes = [W.d('/h'), W.d(base), W.f('/v/keep', 'KEEP', 0o644, 800)] + K.sentinels('/v/out')
+        nodes += K.trashed(td, 'old1', pv(base + '/old1'), '2020-01-01T00:00:00', 'file', 2000)
+        nodes += K.trashed(td, 'old2', pv(base + '/old2'), '2020-01-02T00:00:00', 'dir', 2020)
+        nodes += K.trashed(td, 'young', pv(base + '/young'), '2020-06-15T00:00:00', 'file', 2040)
+        nodes += [W.f(td + '/files/orphan', 'ORPHAN', 0o644, 2060)]
+        nodes += K.entry_nodes(K.KINDS[kind], base + '/fresh', 1000)
+        m = W.build_model(W.W(mounts=K.MOUNTS, cwd=base, nodes=nodes))
+        before = m.snap('/')
+        e = scen.env()
+        procs = [sched.Proc(C('empty', [str([1, 7, 100][days])], e, now=NOW, cwd=base), 'empty'),
+                 sched.Proc(C('put', ['--', 'fresh'], e, now=NOW, cwd=base), 'put')]
+        rt.begin(('concurrent-put', k, [1, 7, 100][days], K.KINDS[kind], td))
+        sched.run_schedule(m, procs, [(0, k), (1, None)])
+        if len(procs[0].log) >= 150:
+            return rt.fail('C10:bound-too-small', 'trash-empty made %d system calls; preemption points only range over 0..149' % len(procs[0].log))
+        after = m.snap('/')
+        label = 'concurrent-put:days=%d:%s' % ([1, 7, 100][days], K.KINDS[kind])
+        for p in procs:
+            if p.result['exc']:
+                return rt.fail('C10:traceback-under-concurrency:' + label, '%s: %s [preempted after %d system calls]' % (p.name, p.result['exc'], k))
+        payload = scen.sub(before, base + '/fresh')
+        if procs[1].result['exit'] == 0:
+            ents = scen.trash_entries(after, td)
+            mine = [n for n, (i, pl) in ents.items() if pl == payload]
+            if len(mine) != 1 or ents[mine[0]][0] is None:
+                return rt.fail('C10:young-entry-not-kept-whole:' + label, 'the entry trashed a moment ago: %r [trash-empty preempted after %d system calls, last of them %r]' % (
+                    {n: (i is not None, pl is not None) for n, (i, pl) in ents.items()}, k, procs[0].log[:k][-1:] ))
+        young = scen.trash_entries(after, td).get('young')
+        if young is None or young[0] is None or young[1] is None:
+            return rt.fail('C10:young-entry-not-kept-whole:' + label, 'entry "young" (12 hours old): %r' % (young,))
+        return rt.ok()
+
+
+def w_conc(k: int, days: int, kind: int, tdk: int) -> str:
+    """
+    pre: PARTITION is None or (days == PARTITION[0] and tdk == PARTITION[1])
+    pre: 0 <= k < 150 and 0 <= days < 3 and 0 <= kind < 6 and 0 <= tdk < 2
+    post: _ == ''
+    """
+    return _conc(rt.sel(k, 150), rt.sel(days, 3), rt.sel(kind, 6), rt.sel(tdk, 2))
+
+
 def obligations(tier):
     obs = [
         CH('K_threshold_all_values', MOD, 'k_threshold', timeout=120, engine='K', regime='traced',
@@ -247,6 +299,9 @@ def obligations(tier):
         CH('W_slots_quick', MOD, 'w_quick', timeout=600, partitions=list(range(5)), engine='W', regime='selector', encodes=K.EMPTY_FUNCS, stubs=K.STUBS,
            bounds='5 DAYS x 16 date slots (x2 derived neighbours) x 3 clock sources x 6 kinds'),
     ]
+    obs.append(CH('W_put_completes_while_empty_runs', MOD, 'w_conc', timeout=1200, partitions=[(d, t) for d in range(3) for t in range(2)], engine='W', regime='selector',
+                  encodes=K.EMPTY_FUNCS + K.PUT_FUNCS + ['vf.sched replay-stepping'], stubs=K.STUBS,
+                  bounds='trash-empty DAYS (1, 7, 100) preempted after k < 150 system calls (its runs are shorter: checked) by a complete trash-put of 6 kinds into the same trash directory (volume / home)'))
     if tier == 'thorough':
         obs.append(CH('W_slots_product', MOD, 'w_main', timeout=3000, partitions=list(range(16)), twin=False, engine='W',
                       regime='selector', encodes=K.EMPTY_FUNCS, stubs=K.STUBS,
